@@ -331,7 +331,7 @@ def c20(pid, tier, seed, scratch):
     rng = random.Random(seed)
     rep = _report("corruption-served-or-detected", seed,
                   "committed, closed memories (text, chunked text, binary, embedded documents, deletes/updates, tickets; Tantivy segments, vector index, time index, memories and sketch tracks) "
-                  "are damaged: single-byte flips (3 patterns; stratified per decoded region in quick, exhaustive over the non-zero bytes of one file in thorough), zeroed / 0xFF-filled ranges aligned "
+                  "are damaged: single-byte flips (3 patterns; stratified per decoded region in quick, exhaustive over the non-zero bytes of one file in thorough, except its TOC which is sampled), zeroed / 0xFF-filled ranges aligned "
                   "to structures and at random, truncation at every structure boundary +-1 and at random offsets, appended bytes. Each mutant is opened read-only and read-write (scratch copy) and "
                   "every frame's metadata, payload, blob, text, embedding plus timeline, 12 searches, a vector search, cards, stats and ticket are compared with the undamaged file's; a read that "
                   "errs is fine, a read that returns something else is not; Memvid::verify(deep) must not report Passed on a file whose read-only reads differ. a case is one mutant; distinct = "
@@ -357,7 +357,11 @@ def c20(pid, tier, seed, scratch):
             budget = 60 if tier == "quick" else 400
             if name == "unmapped" or name == "wal":
                 budget = 30
-            muts += flips_for_region(data, name, s, e, rng, budget, exhaustive and name not in ("unmapped",))
+            # a damaged TOC sends open() into its trailer scan, which re-hashes the file tail at every offset (seconds per
+            # mutant even on a 100 KiB file): the TOC is sampled (its checksum catches every flip alike), everything else is exhaustive
+            if exhaustive and name == "toc":
+                budget = 3000
+            muts += flips_for_region(data, name, s, e, rng, budget, exhaustive and name not in ("unmapped", "toc"))
         muts += structural_mutants(data, regs, rng, 40 if tier == "quick" else 400)
         _count(rep, "corpus_files")
         _count(rep, "corpus_bytes", len(data))
